@@ -572,10 +572,18 @@ def integer_correspondence(ctx, ncases, label="si", big=False):
                       ops=[(o["op"], len(o["xs"]), [len(c[1]) for c in o.get("chunks", [])], o.get("cs"))
                            for o in cfg["ops"]]),
                  nontrivial=any(o[4] for o in outs))
-    for k in bad[:5]:
+    # outside the precondition the property promises nothing: a disagreement there is only
+    # logged (the model is faithful there today, which is additional evidence, not an obligation)
+    judged = [k for k in bad if cases[k][0]["pre"]]
+    for k in bad:
+        if not cases[k][0]["pre"]:
+            ctx.count("%s:disagreement-outside-precondition(not judged)" % label)
+    if len(judged) < len(bad):
+        ctx.log("%d disagreement(s) with the model outside the precondition (not judged)" % (len(bad) - len(judged)))
+    for k in judged[:5]:
         what, rep = explain_case(ctx, k, cases[k], label)
         ctx.fail(what, rep, kind="correspondence")
-    return cases, bad
+    return cases, judged
 
 
 def run_si_stream_correspondence(ctx, ncases=None):
@@ -957,11 +965,11 @@ def run(ctx):
         ctx.fail("coq/C03 model no longer compiles" if not gate else "forbidden vernacular: %s" % gate[:3],
                  dict(correspondence="coq/C03/Exec.v", log_tail=out[-1500:]), kind="tie", no_input=True)
     else:
-        integer_correspondence(ctx, ctx.scale(800, 8000), label="si")
+        integer_correspondence(ctx, ctx.scale(1200, 8000), label="si")
         if ctx.thorough:
             integer_correspondence(ctx, 400, label="sibig", big=True)
-    definition_oracle(ctx, np, ctx.scale(150, 1500))
-    chunk_oracle(ctx, np, ctx.scale(80, 800))
+    definition_oracle(ctx, np, ctx.scale(200, 1500))
+    chunk_oracle(ctx, np, ctx.scale(100, 800))
     dtype_oracle(ctx, np)
     ctx.cov["rule"] = (
         "integer-coded cases: one computer built by the real constructor on a stub bank (integer impulse "
